@@ -712,7 +712,9 @@ func (bl *ToBoltListener) ExitQueryStmt(c *zitiql.QueryStmtContext) {
 		bl.popStack()
 	}
 
-	if _, ok := bl.peekStack().(Node); ok {
+	// whether there is a predicate is read off the parse tree, not off the stack: in a sub-query without one
+	// (from places where limit 5) the node on top of the stack is the set the sub-query ranges over
+	if c.BoolExpr() != nil {
 		result.predicate = bl.popNode()
 	} else {
 		result.predicate = BoolNodeTrue
